@@ -6,13 +6,14 @@ export CARGO_NET_OFFLINE=true
 python3 tools/extract_consts.py "${VERIF_REPO:-/repo}" >/dev/null
 cd coq
 coq_makefile -f _CoqProject $(find theories -name '*.v' | sort) -o Makefile >/dev/null
-timeout 3000 make -j16
+# -k: a file that does not compile must not hide the others; each check rebuilds its own closure
+timeout 3000 make -j16 -k || echo "WARNING: some Coq files did not build (the checks that need them will report it)"
 cd ../harness
 sed "s#@REPO@#${VERIF_REPO:-/repo}#g" Cargo.toml.in > Cargo.toml
-RUSTFLAGS="--cfg actix_web_verif" timeout 3000 cargo build --offline --bins
-if ls ../meta/*.json >/dev/null 2>&1 && grep -l '"release": true' ../meta/*.json >/dev/null 2>&1; then
-  for b in $(grep -l '"release": true' ../meta/*.json | xargs -n1 python3 -c "import json,sys; print(json.load(open(sys.argv[1]))['bin'])"); do
-    RUSTFLAGS="--cfg actix_web_verif" timeout 3000 cargo build --offline --release --bin "$b"
-  done
-fi
+for m in ../meta/C*.json; do
+  b=$(python3 -c "import json,sys; m=json.load(open(sys.argv[1])); print(m['bin'] if m.get('ready') else '')" "$m")
+  [ -n "$b" ] || continue
+  rel=$(python3 -c "import json,sys; m=json.load(open(sys.argv[1])); print('--release' if m.get('release') else '')" "$m")
+  RUSTFLAGS="--cfg actix_web_verif" timeout 3000 cargo build --offline $rel --bin "$b" || echo "WARNING: harness bin $b did not build"
+done
 echo setup done
